@@ -17,9 +17,9 @@ class Driver:
         env = dict(os.environ)
         env.update(vt.SAN_ENV)
         self.errpath = os.path.join(os.path.dirname(self.exe), "rpc.%d.stderr" % os.getpid())
-        self.errf = open(self.errpath, "w+")
+        self.errf = open(self.errpath, "w+", errors="replace")
         self.p = subprocess.Popen([self.exe], stdin=subprocess.PIPE, stdout=subprocess.PIPE, stderr=self.errf,
-                                  text=True, bufsize=1, env=env)
+                                  text=True, errors="backslashreplace", bufsize=1, env=env)
 
     def close(self):
         if self.p:
